@@ -7,3 +7,5 @@ open SSVerif.Search
 #print axioms C01_finish_clears_search
 #print axioms C01_hmm_eval_3st_refines
 #print axioms C01_search_checkers_sound
+#print axioms C01_build_lexTreeOK
+#print axioms C01_reachable_WFHist_built
